@@ -217,12 +217,12 @@ def run_case(case, rec, mon=None):
     kind = case["kind"]
     if kind == "grid":
         name, params = case["cls"], case["params"]
-        sc = _build(name, params, [None, "from_alias", None, "factory_dict", None, "factory_str"][case["idx"] % 6], mon)
-        if case["idx"] % 6 == 4:
+        sc = _build(name, params, case.get("how"), mon)
+        if case.get("copy") is not None:
             from ..common import copied, COPY_WAYS
 
-            sc = copied(sc, COPY_WAYS[(case["idx"] // 6) % 3])  # the scale as a copied / pickled bank carries it
-            rec.count("scales_used_through_a_copy")
+            sc = copied(sc, COPY_WAYS[case["copy"]])  # the scale as a copied / pickled bank carries it
+            rec.count("scales_used_through_a_" + COPY_WAYS[case["copy"]])
         fwd, inv = R.ref_pair(name, params)
         fs = _probes(case)
         use_np = case.get("np_scalar", False)
@@ -421,8 +421,10 @@ def _cases(tier, seed):
         if rep % 2 == 0:
             # any positive low_hz is accepted, however small
             cfgs.append(("octave", {"low_hz": 1e-12 if rep % 4 == 0 else float(10 ** prng.uniform(-14, -2))}))
-        for name, params in cfgs:
-            cases.append({"kind": "grid", "cls": name, "params": params, "n": n, "seed": seed, "idx": idx, "np_scalar": bool(rep % 2)})
+        for k, (name, params) in enumerate(cfgs):
+            # how the object is obtained (the class itself / its documented alias) and whether it is used through a copy rotate over the configurations
+            cases.append({"kind": "grid", "cls": name, "params": params, "n": n, "seed": seed, "idx": idx, "np_scalar": bool(rep % 2),
+                          "how": [None, "from_alias", None, "factory_dict", None, "factory_str"][(rep + k) % 6], "copy": (rep + k) % 3 if (rep + 2 * k) % 3 == 1 else None})
             idx += 1
     for k in range(2 if tier == "quick" else 16):
         cases.append({"kind": "mutate", "n": 40, "seed": seed, "idx": idx})
